@@ -19,7 +19,7 @@ from __future__ import annotations
 
 import ast
 
-from ..model import AnalysisError, Program, dotted, kwarg, const, walk_no_nested
+from ..model import AnalysisError, Program, dotted, kwarg, const, walk_no_nested, arg_or_kw
 from ..report import Result
 from .. import rows as R
 from . import ix_common as I
@@ -155,8 +155,10 @@ def gen_sparse(prog: Program, res: Result) -> None:
     fi2 = prog.func("sptensor.sptenrand")
     inner, call = _nested_return_call(fi2.node)
     desc = "sptenrand draws values from np.random.uniform(low=0, high=1)"
-    if call is not None and (dotted(call.func) or "").split(".")[-1] == "uniform" and const(kwarg(call, "low")) in (0, None) \
-            and const(kwarg(call, "high")) in (1, None):
+    lo = arg_or_kw(call, 0, "low") if call is not None else None
+    hi = arg_or_kw(call, 1, "high") if call is not None else None
+    if call is not None and (dotted(call.func) or "").split(".")[-1] == "uniform" and (lo is None or const(lo) == 0) \
+            and (hi is None or const(hi) == 1):
         res.ok("GEN-fill", fi2.short, desc, prog.loc(fi2, call))
     elif call is None:
         res.undecided("GEN-fill", fi2.short, desc, prog.loc(fi2))
